@@ -447,3 +447,113 @@ Proof. exact find_or_insert_noop_on_parsed. Qed.
 Theorem c10_appending_writer_missing_item_refuted :
   FindInsert.items (fst (FindInsert.fi_run (FindInsert.fi_init [5; 6]%N) [6; 7]%N)) = [5; 6; 7]%N.
 Proof. exact append_when_missing. Qed.
+
+(** ---------------------------------------------------------------------------------------------------------
+    Round 4.  The premise "every writer inverts its reader on the values the file holds", one per view, and the whole
+    property as one statement with every hypothesis visible (SM/LazyLumpsCodec.v).  The per-view premises are what
+    property C11 is about; the check discharges them from the objects C11's translators generate from today's
+    bsp.py (instance obligations [codec[<views>]:...], listed per view in the evidence), and for the texture-name
+    view the step from the generated object to the premise is proved here. *)
+From SV Require Import SM.LazyLumpsCodec Fmt.BspTexStrings.
+Close Scope N_scope.
+
+Theorem c10_codec_premise_per_view : forall (D P : Type) (rd : nat -> list D -> option P) (wr : nat -> P -> list D)
+    (g : graph) (s0 : state D P),
+  (forall v, v < nviews g -> codec_ok_at D P rd wr g s0 v) <-> (codec_ok D P rd wr g s0 /\ wr_len_ok D P rd wr g s0).
+Proof. exact codec_ok_per_view. Qed.
+
+(** The property: graph / statement-order / writers-look conditions (decidable: instance obligations), a file just read,
+    one codec premise per view |- with no look every lump is identical; for every access sequence save completes,
+    the cache is empty, every view parses to the same content, lumps without a view and lumps of views outside the
+    dependency closure of the looks are byte-identical, and saving again changes nothing. *)
+Theorem c10_property : forall (D P : Type) (empty : D) (rd : nat -> list D -> option P) (wr : nat -> P -> list D)
+    (g : graph) (sh : shape),
+  order_consistent g = true -> shape_ok sh = true -> wdeps_within_rdeps g = true ->
+  forall s0 : state D P, fresh D P s0 ->
+  (forall v, v < nviews g -> codec_ok_at D P rd wr g s0 v) ->
+  (save D P empty rd wr g sh s0 = (true, s0)) /\
+  forall accs,
+    let r := save D P empty rd wr g sh (run D P empty rd g sh accs s0) in
+    fst r = true /\ fresh D P (snd r) /\ same_content D P rd g (snd r) s0 /\
+    save D P empty rd wr g sh (snd r) = (true, snd r) /\
+    (forall R : nat -> Prop,
+       (forall v d, v < nviews g -> R v -> In d (v_rdeps (decl g v) ++ v_wdeps (decl g v)) -> R d) ->
+       (forall v, In v accs -> R v) ->
+       forall v l, v < nviews g -> ~ R v -> In l (own g v) -> raw (snd r) l = raw s0 l).
+Proof. exact property_per_view. Qed.
+
+(** Non-vacuity: the example graph of theorem 11 with its codec satisfies every hypothesis of [c10_property]. *)
+Theorem c10_property_hypotheses_satisfiable :
+  order_consistent g_ok = true /\ shape_ok std_shape = true /\ wdeps_within_rdeps g_ok = true /\
+  fresh nat (list nat) ex_s0 /\ (forall v, v < nviews g_ok -> codec_ok_at nat (list nat) ex_rd ex_wr g_ok ex_s0 v).
+Proof. exact property_hyps_example. Qed.
+
+(** Texture names (lumps TEXDATA_STRING_DATA + TEXDATA_STRING_TABLE): for every configuration [c] read off
+    [_lmp_write_textures] / [_lmp_read_textures] that passes [texcfg_ok] (search pattern and appended bytes are
+    name + NUL, the writer's guard is below the reader's window: C11's obligations) and [texcfg_window_is_guard]
+    (every name the reader can return passes the writer's guard), the codec premise holds for EVERY content of the two
+    lumps: what the reader returns is written so that it reads back equal, whatever storage the pool search shared. *)
+Theorem c10_textures_codec_premise : forall c, texcfg_ok c = true -> texcfg_window_is_guard c = true ->
+  forall ds names, tex_view_rd c ds = Some names ->
+  tex_view_rd c (tex_view_wr c names) = Some names /\ length (tex_view_wr c names) = 2.
+Proof. exact tex_view_codec. Qed.
+
+(** ... hence [codec_ok_at] at the position of the texture-name view in any graph, for every file. *)
+Theorem c10_textures_codec_ok_at : forall (P : Type) (inj : list (list N) -> P) (prj : P -> list (list N))
+    (rd : nat -> list tdatum -> option P) (wr : nat -> P -> list tdatum) (g : graph) c v,
+  texcfg_ok c = true -> texcfg_window_is_guard c = true ->
+  (forall x, prj (inj x) = x) ->
+  (forall ds, rd v ds = option_map inj (tex_view_rd c ds)) -> (forall p, wr v p = tex_view_wr c (prj p)) ->
+  length (own g v) = 2 ->
+  forall s0, codec_ok_at tdatum P rd wr g s0 v.
+Proof. exact tex_view_codec_ok_at. Qed.
+
+(** Seeded fault c10_5 in closed form: the string pool searched for the bare name.  A file holding "AB" and "A" (each
+    stored in full) is read as ["AB"; "A"]; what the writer makes of that reads back as ["AB"; "AB"]. *)
+Theorem c10_textures_bare_search_refuted :
+  let c := ([], [0%N], 127, 128) in
+  let file := [TBytes [65; 66; 0; 65; 0]%N; TOffs [0; 3]] in
+  texcfg_ok c = false /\ texcfg_window_is_guard c = true /\
+  tex_view_rd c file = Some [[65; 66]; [65]]%N /\
+  tex_view_wr c [[65; 66]; [65]]%N = [TBytes [65; 66; 0]%N; TOffs [0; 0]] /\
+  tex_view_rd c (tex_view_wr c [[65; 66]; [65]]%N) = Some [[65; 66]; [65; 66]]%N.
+Proof. exact tex_view_codec_bare_search_refuted. Qed.
+
+(** Views that are a plain array of fixed [struct] records (PLANES, VERTEXES, CUBEMAPS: one lump, the reader is
+    [iter_unpack fmt], the writer packs every record with the same format; SM/LazyLumpsRecCodec.v).  The direction C10
+    needs and C11 does not state: whatever [unpack] returns for a string of bytes fits the format. *)
+From SV Require Import Bin.Struct SM.LazyLumpsRecCodec Fmt.BspFormatsSpec.
+Close Scope N_scope.
+
+Theorem c10_unpack_returns_fitting_values : forall f bs vs, wf_fmt f = true -> all_bytes bs = true ->
+  unpack f bs = Some vs -> fits f vs = true.
+Proof. exact unpack_fits. Qed.
+
+(** The codec premise of such a view for EVERY content of its lump, from the well-formedness of the format alone. *)
+Theorem c10_record_array_codec_premise : forall f, wf_fmt f = true -> 0 < calcsize f ->
+  forall data recs, all_bytes data = true -> rec_view_rd f [data] = Some recs ->
+  rec_view_rd f (rec_view_wr f recs) = Some recs /\ length (rec_view_wr f recs) = 1.
+Proof. exact rec_view_codec. Qed.
+
+(** ... and from the object C11 generates from bsp.py: a stream of Gen/BspFormats_gen.v that passes [rec_stream_ok_in] in a
+    layout table (all reading and writing alternatives denote one well-formed format of positive size: an instance
+    obligation per view and layout) gives the premise for ANY pairing of a reading and a writing alternative. *)
+Theorem c10_record_array_codec_from_generated_stream : forall lay n appl ralts walts ra wa fr fw,
+  rec_stream_ok_in lay (n, appl, ralts, walts) = true -> In ra ralts -> In wa walts ->
+  alt_fmt lay ra = Some fr -> alt_fmt lay wa = Some fw ->
+  forall data recs, all_bytes data = true -> rec_view_rd fr [data] = Some recs ->
+  rec_view_rd fr (rec_view_wr fw recs) = Some recs /\ length (rec_view_wr fw recs) = 1.
+Proof. exact rec_view_codec_generated. Qed.
+
+(** Non-vacuity (two plane records [<ffffi] are read and written back byte-identically) and the nearby wrong shape (a
+    writer that packs the last field as a short writes records the reader rejects). *)
+Theorem c10_record_array_example_and_other_format_refuted :
+  (wf_fmt fmt_plane = true /\ calcsize fmt_plane = 20 /\ all_bytes ex_planes = true /\
+   option_map (@length _) (rec_view_rd fmt_plane [ex_planes]) = Some 2 /\
+   option_map (rec_view_wr fmt_plane) (rec_view_rd fmt_plane [ex_planes]) = Some [ex_planes]) /\
+  (let wr_short := [KFloat; KFloat; KFloat; KFloat; KInt true 2] in
+   match rec_view_rd fmt_plane [ex_planes] with
+   | Some recs => rec_view_rd fmt_plane (rec_view_wr wr_short recs) = None
+   | None => False
+   end).
+Proof. exact (conj rec_view_codec_example rec_view_other_writer_format_refuted). Qed.
